@@ -58,7 +58,8 @@ def _rules(ck, prog, cfg):
     for f in prog.lib_fns():
         if f.file != "src/replication/hash_ring.rs" or f.d.get("impl_self") != "replication::hash_ring::HashRing":
             continue
-        grows = [(b, t) for b, t in f.calls() if is_callee(t, r"Vec::<\(u64, .*VirtualNode\)>::(push|insert|extend|append|extend_from_slice)$") and _is_field(f, t["args"][0], "ring")]
+        grows = [(b, t) for b, t in f.calls() if is_callee(t, r"Vec::<\(u64, .*VirtualNode\)>::(push|insert|extend|append|extend_from_slice)$",
+                                                            r"Vec<\(u64, .*VirtualNode\)> as std::iter::Extend<.*>>::extend(::<.*>)?$") and _is_field(f, t["args"][0], "ring")]
         if not grows:
             continue
         sorts = {b for b, t in f.calls() if is_callee(t, r"<impl \[.*\]>::sort", r"slice::<impl \[T\]>::sort") and _is_field(f, t["args"][0], "ring")}
@@ -73,6 +74,18 @@ def _rules(ck, prog, cfg):
                 p0 = src_of_operand(f, pos.rv["ops"][0])
                 ck.check(p0.kind == "call" and is_callee(p0.term, r"HashRing::hash_virtual_node$"), "R19.2", "%s:position-from-hash%s" % (f.short, _tag(cfg)),
                          "a ring position does not come from hash_virtual_node (%s)" % p0.path(), f.where(gt["ln"]), detail="position = hash_virtual_node(node, i)")
+            elif is_callee(gt, r"Extend<.*>>::extend"):
+                # ring.extend((0..n).map(|i| (hash_virtual_node(..), vnode))): the tuple is built in the mapping closure
+                good = False
+                for ch in prog.children(f):
+                    for bb, i, st in ch.stmts():
+                        rv = st["rv"]
+                        if rv["k"] == "agg" and rv.get("ak") == "tuple" and rv.get("ops"):
+                            q0 = src_of_operand(ch, rv["ops"][0])
+                            if q0.kind == "call" and is_callee(q0.term, r"HashRing::hash_virtual_node$"):
+                                good = True
+                ck.check(good, "R19.2", "%s:position-from-hash%s" % (f.short, _tag(cfg)),
+                         "ring positions added by extend() do not come from hash_virtual_node", f.where(gt["ln"]), detail="position = hash_virtual_node(node, i) in the mapping closure")
         # sort key = position
     ck.floor("R19.2" + _tag(cfg), n2, 1)
     # ---- R19.3 / R19.4
